@@ -217,8 +217,113 @@ class BCFixedPoint:
         return list(W)
 
 
+def build2d(chk):
+    """2-D: a uniform state is a fixed point of fvm2dcart.rhs (generic cell, symbolic nx, ny, lx, ly, kappa) for periodic
+    closure at any flow angle and for matched inlet / outlet / wall closures with the flow along the inlet normal.
+    numflux through its contract (consistency clause), the inlet/outlet conditions through the derived contract
+    'matched 2-D condition with the velocity along the normal returns the state' (= C15 leaf bc/*/one-dimensional/* composed
+    with the 1-D fixed-point leaf above); walls and periodic copies are the real code."""
+    from .C15 import BC2D, QN_BC, SIDES, xface, yface, bc_value
+    from contracts.flux_contract import use_flux_contract
+    from pyvc.framework import lazy_safety, lemma
+    it = chk.interp
+    CLOSURES = {
+        # name: (left, right, bottom, top, flow)   flow: 'any' | '+x' | '-x' | '+y' | 'rest'
+        "per-per": ("per", "per", "per", "per", "any"),
+        "insub-outsub/sym": ("insub", "outsub", "sym", "sym", "+x"),
+        "insub-outsub/per": ("insub", "outsub", "per", "per", "+x"),
+        "outsub-insub/sym": ("outsub", "insub", "sym", "sym", "-x"),
+        "per/insub-outsub": ("per", "per", "insub", "outsub", "+y"),
+        "insup-outsup/sym": ("insup", "outsup", "sym", "sym", "+x"),
+        "sym-sym/sym-sym": ("sym", "sym", "sym", "sym", "rest"),
+    }
+    for numname, haskappa in (("extrapol2d1", False), ("extrapol2dk", True)):
+        for cname, (bl, br, bb, bt, flow) in CLOSURES.items():
+            if chk.tier == "quick" and haskappa and cname not in ("per-per", "insub-outsub/sym", "per/insub-outsub"):
+                continue
+            cfg = "fvm2dcart/euler2d/%s/%s" % (numname, cname)
+            chk.configs.append(cfg)
+            rp = {"fn": "uniform2d_clause", "args": {"num": numname, "bc": [bl, br, bb, bt], "flow": flow}}
+
+            def op(numname=numname, haskappa=haskappa, bl=bl, br=br, bb=bb, bt=bt, flow=flow, rp=rp):
+                nx, ny = z3.Int("nx"), z3.Int("ny")
+                lx, ly = z3.Real("lx"), z3.Real("ly")
+                assume(z3.And(nx >= 1, ny >= 1, lx > 0, ly > 0))
+                a, b = z3.Int("a"), z3.Int("b")
+                assume(z3.And(a >= 0, a < ny, b >= 0, b < nx))
+                lemma("index-products", z3.And(a * nx >= 0, (ny - 1 - a) * nx >= 0, (nx - 1) * (ny - 1) >= 0))
+                for t in (0, 1, 2):
+                    lemma("index-products/a/%d" % t,
+                          z3.And(z3.Implies(a >= t, (a - t) * nx >= 0), z3.Implies(a <= t, (t - a) * nx >= 0),
+                                 z3.Implies(a <= ny - 1 - t, (ny - 1 - t - a) * nx >= 0),
+                                 z3.Implies(a >= ny - 1 - t, (a - (ny - 1 - t)) * nx >= 0)))
+                m, info = make_model(chk, "euler2d")
+                g = info["gamma"]
+                rho, ux, uy, p = z3.Real("W0"), z3.Real("W1"), z3.Real("W2"), z3.Real("W3")
+                for k, w in enumerate((rho, ux, uy, p)):
+                    watch("W%d" % k, w)
+                assume(z3.And(rho > 0, p > 0))
+                if flow == "+x":
+                    assume(z3.And(ux >= 0, uy == 0))
+                elif flow == "-x":
+                    assume(z3.And(ux <= 0, uy == 0))
+                elif flow == "+y":
+                    assume(z3.And(uy >= 0, ux == 0))
+                elif flow == "rest":
+                    assume(z3.And(ux == 0, uy == 0))
+                W = [rho, ux, uy, p]
+                bcs = {}
+                for side, tag in (("left", bl), ("right", br), ("bottom", bb), ("top", bt)):
+                    un = ux if side in ("left", "right") else uy
+                    d = dict(matched_params(tag, g, [rho, un, p])) if tag in INLETS + OUTLETS else {"type": tag}
+                    d["type"] = tag
+                    bcs[side] = d
+                mesh = it.call(get(chk, "flowdyn.mesh2d", "mesh2d"), [nx, ny, lx, ly], {})
+                num = it.call(get(chk, "flowdyn.xnum", numname), [z3.Real("kappa")] if haskappa else [], {})
+                disc = it.call(get(chk, "flowdyn.modeldisc", "fvm2dcart"), [m, mesh, num, bcs], {})
+                n = nx * ny
+                E = p / (g - 1) + rho * (ux * ux + uy * uy) / 2
+                Q = [A.full(n, rho), A.Sym2D([A.full(n, rho * ux), A.full(n, rho * uy)]), A.full(n, E)]
+                fld = make_field(chk, m, mesh, Q)
+                # inlet / outlet sides through the derived contract, walls by the real code
+                bcc = BC2D(real_for=lambda nrm: bcs[[s_ for s_, v in SIDES.items() if tuple(v) == tuple(nrm)][0]]["type"] == "sym")
+                it.contracts[QN_BC] = bcc
+                it.active_contracts.add(QN_BC)
+                try:
+                    with use_flux_contract(it, "euler2d", info, clauses=(), requires=False, opaque=True) as fc, lazy_safety():
+                        res = it.call(it.getattr(disc, "rhs"), [fld], {})
+                finally:
+                    it.active_contracts.discard(QN_BC)
+                # derived boundary contract: matched condition, velocity along the normal -> the state itself (at the cell's row/column)
+                for c in bcc.calls:
+                    nrm = [int(T.conc_value(x)) if T.is_sym(x) else int(x) for x in bcc.at(c, 0)[0]]
+                    pos = a if nrm[1] == 0 else b
+                    _, w_in, w_out = bcc.at(c, pos)
+                    un = ux if nrm[1] == 0 else uy
+                    ut = uy if nrm[1] == 0 else ux
+                    tag = c["name"]
+                    dsgn = nrm[0] if nrm[1] == 0 else nrm[1]
+                    rel = z3.And(*([x == y for x, y in zip(w_in, W)] + [ut == 0, regime(tag, dsgn, g, [rho, un, p])]))
+                    T.cur().add_fact(z3.Implies(rel, z3.And(*[x == y for x, y in zip(w_out, W)])))
+                    lemma("boundary-sees-the-uniform-state/%s" % tag, z3.And(*[x == y for x, y in zip(w_in, W)]))
+                names = ("rho", "ux", "uy", "p")
+                for fname, fidx in (("x0", xface(nx, a, b)), ("x1", xface(nx, a, b + 1)), ("y0", yface(nx, ny, a, b)), ("y1", yface(nx, ny, a + 1, b))):
+                    args = fc.last["args_at"](fidx)
+                    for j, x in enumerate(args[:8]):
+                        lemma("face-states/%s/%s[%s]" % (fname, "L" if j < 4 else "R", names[j % 4]), x == W[j % 4])
+                    lemma("face-sees-the-uniform-state/%s" % fname, fc.instance_consistency(fidx, at_state=W))
+                rf = flat_at(res, a * nx + b)
+                for k, cn in enumerate(comp_names("euler2d")):
+                    prove("residual-vanishes[%s]" % cn, rf[k] == 0, replay=rp)
+                canary("canary", rf[0] == 1)
+            chk.run(cfg, op)
+
+
 def build(chk):
     _build_own(chk)
+    build2d(chk)
+    from . import C15
+    chk.include(C15, r"^bc/(insub|insup|outsub|outsup|sym)/one-dimensional/", "uses:C15")
     # the flux consistency clause the zero-residual argument instantiates (every registered flux, C02)
     from . import C02
     chk.include(C02, r"/consistency$", "uses:C02")
